@@ -290,7 +290,8 @@ def gen(tier, rng):
             for s in SORTS:
                 if cid == 0 or s == "stable_sort":
                     out.append(f"{s}_t{tcyc(s)} {cid} {ls}")
-                out.append(f"{s}_full_t{tcyc(s + 'f')} {cid} {ls}")
+                if cid != 1:
+                    out.append(f"{s}_full_t{tcyc(s + 'f')} {cid} {ls}")
             k = len(l) // 2
             out.append(f"partial_sort_t{tcyc('ps')} {cid} {k} {ls}")
             if l:
@@ -304,7 +305,8 @@ def gen(tier, rng):
             for s in SORTS:
                 if cid == 0 or s == "stable_sort":
                     out.append(f"{s}_mv {cid} {ls}")
-                out.append(f"{s}_mv_full {cid} {ls}")
+                if cid != 2:
+                    out.append(f"{s}_mv_full {cid} {ls}")
             out.append(f"partial_sort_mv {cid} {len(l) // 2} {ls}")
             if l:
                 out.append(f"nth_element_mv {cid} {len(l) // 2} {ls}")
